@@ -108,6 +108,10 @@ def gen_case(rng, tier, est=None, seeded=None):
     else:  # isv_array / jfa_array / wccn
         nc = rng.randint(2, 3)
         n = rng.randint(max(nc + 2, d + nc + 3), 16)
+        if est == "wccn" and rng.random() < 0.08:
+            # many classes (hundreds of identities is the normal use of WCCN)
+            nc = rng.choice([17, 33, 65, 128, 130, 200])
+            n = nc * 2 + rng.randint(d + 3, d + 20)
         mix = rs.randn(d, d) + 2 * np.eye(d)
         X = sig6(rs.randn(n, d) @ mix * 10.0 ** rng.uniform(-1, 1) + rs.uniform(-2, 2, size=d))
         y = [i % nc for i in range(n)]
